@@ -11,13 +11,14 @@ import (
 )
 
 func init() {
-	Explanations["C08"] = "Decides structural necessary conditions of 'the host commits only doubly-signed revisions derived from the locked contract' for every RHP4 handler of rhp.Server that reaches a Contractor mutator: (R1) revising sinks are dominated by a successful contract lock whose Revisable flag was tested, with the unlock deferred and never called before the sink; (R2) where the request type has a challenge signature it is validated against the locked revision before the sink; (R3) the revision handed to the sink is the result of a core constructor applied to the locked revision (never a contract decoded from the wire); (R4) the sink is dominated by the true edge of RenterPublicKey.VerifyHash over the sig-hash of exactly the value handed to the sink, and between hashing and the sink only the two signature fields of that value are written; (R5) the stored host signature signs that same hash; (R6) every use of the request's price table / account token is dominated by the success edge of a Validate call that (per a summary recomputed from core's source) checks the host's signature and expiry with the host's own key. (R7) AddV2Contract / RenewV2Contract are dominated by the success edge of ChainManager.AddV2PoolTransactions over the same basis and transaction set, so the host records (and finalises the old contract for) only a formation or renewal that consensus validation accepted (same check as C16.R3). NOT decided: arithmetic of core's ReviseFor*/PayWithContract (value conservation, monotone revision numbers), consensus acceptability, races between RPCs beyond the lock discipline."
+	Explanations["C08"] = "Decides structural necessary conditions of 'the host commits only doubly-signed revisions derived from the locked contract' for every RHP4 handler of rhp.Server that reaches a Contractor mutator: (R1) revising sinks are dominated by a successful contract lock whose Revisable flag was tested, with the unlock deferred and never called before the sink; (R2) where the request type has a challenge signature it is validated against the locked revision before the sink; (R3) the revision handed to the sink is the result of a core constructor applied to the locked revision (never a contract decoded from the wire); (R4) the sink is dominated by the true edge of RenterPublicKey.VerifyHash over the sig-hash of exactly the value handed to the sink, and between hashing and the sink only the two signature fields of that value are written; (R5) the stored host signature signs that same hash; (R6) every use of the request's price table / account token is dominated by the success edge of a Validate call that (per a summary recomputed from core's source) checks the host's signature and expiry with the host's own key. (R7) AddV2Contract / RenewV2Contract are dominated by the success edge of ChainManager.AddV2PoolTransactions over the same basis and transaction set, so the host records (and finalises the old contract for) only a formation or renewal that consensus validation accepted (same check as C16.R3). (R8) where the server signs its price table, the expiry written to Prices.ValidUntil is the current time plus one duration setting of the Server that is not also used to compute a stream deadline (SetDeadline and friends): the operator's price-table validity, not the RPC timeout, limits how long a signed table can be presented. NOT decided: arithmetic of core's ReviseFor*/PayWithContract (value conservation, monotone revision numbers), consensus acceptability, races between RPCs beyond the lock discipline."
 
 	register(&Rule{ID: "C08.R1", Prop: "C08", Floor: 8, Doc: "revising sinks run under a revisable contract lock whose unlock is deferred", Run: c08r1})
 	register(&Rule{ID: "C08.R2", Prop: "C08", Floor: 6, Doc: "challenge signature validated against the locked revision before the sink", Run: c08r2})
 	register(&Rule{ID: "C08.R3", Prop: "C08", Floor: 6, Doc: "the persisted revision is a core constructor's result over the locked revision", Run: c08r3})
 	register(&Rule{ID: "C08.R4", Prop: "C08", Floor: 9, Doc: "renter signature verified over the hash of exactly the persisted value before the sink", Run: c08r4})
 	register(&Rule{ID: "C08.R5", Prop: "C08", Floor: 9, Doc: "host signature stored is SignHash of the verified hash", Run: c08r5})
+	register(&Rule{ID: "C08.R8", Prop: "C08", Floor: 1, Doc: "the signed price table expires after the configured price-table validity, not after a setting that times streams", Run: c08r8})
 	register(&Rule{ID: "C08.R7", Prop: "C08", Floor: 3, Doc: "formation/renewal sets are accepted by the transaction pool before the contractor records them (consensus acceptability)", Run: c16r3})
 	register(&Rule{ID: "C08.R6", Prop: "C08", Floor: 9, Doc: "price table and account token used only after validation with the host key", Run: c08r6})
 }
@@ -812,5 +813,80 @@ func c08r6(c *Ctx) {
 				ob.OK("%d use(s), all after validation", uses)
 			}
 		}
+	}
+}
+
+// c08r8: ValidUntil is computed from the price-table validity setting.
+func c08r8(c *Ctx) {
+	srvT := c.P.Named("rhp", "Server")
+	isSrvDuration := func(f *ir.Func, e ast.Expr) *types.Var {
+		sel, ok := ast.Unparen(e).(*ast.SelectorExpr)
+		if !ok {
+			return nil
+		}
+		fld := f.FieldOf(sel)
+		if fld == nil || !ir.IsNamed(fld.Type(), "time", "Duration") {
+			return nil
+		}
+		if rt := f.TypeOf(sel.X); rt != nil {
+			if pt, ok := rt.Underlying().(*types.Pointer); ok {
+				rt = pt.Elem()
+			}
+			if types.Identical(rt, srvT) {
+				return fld
+			}
+		}
+		return nil
+	}
+	// settings that time streams
+	deadline := map[*types.Var]bool{}
+	for _, f := range c.P.PkgFuncs("rhp") {
+		for _, fn := range append([]*ir.Func{f}, f.Lits...) {
+			for _, call := range fn.Calls(false) {
+				if call.Fn == nil || !strings.HasSuffix(call.Fn.Name(), "Deadline") {
+					continue
+				}
+				for _, a := range call.Expr.Args {
+					ir.Walk(a, false, func(x ast.Node) {
+						if e, ok := x.(ast.Expr); ok {
+							if fld := isSrvDuration(fn, e); fld != nil {
+								deadline[fld] = true
+							}
+						}
+					})
+				}
+			}
+		}
+	}
+	n := 0
+	for _, f := range c.P.MethodsOf("rhp", "Server") {
+		for _, w := range f.WritesIn(f.Body, false) {
+			sel, ok := ast.Unparen(w.LHS).(*ast.SelectorExpr)
+			if !ok || sel.Sel.Name != "ValidUntil" || w.RHS == nil {
+				continue
+			}
+			n++
+			c.VisitGraph(f)
+			ob := c.Ob(f, "price-table-expiry-from-validity-setting", w.LHS.Pos())
+			var used []*types.Var
+			ir.Walk(origin(f, w.RHS), false, func(x ast.Node) {
+				if e, ok := x.(ast.Expr); ok {
+					if fld := isSrvDuration(f, e); fld != nil {
+						used = append(used, fld)
+					}
+				}
+			})
+			switch {
+			case len(used) != 1:
+				ob.Unknown("the expiry is not the current time plus one duration setting of the server")
+			case deadline[used[0]]:
+				ob.Bad(nil, "the price table's expiry is computed from Server.%s, the setting that bounds stream deadlines: the configured price-table validity is ignored, so a signed table is accepted for revising RPCs after the operator's validity period", used[0].Name())
+			default:
+				ob.OK("expiry = now + Server.%s", used[0].Name())
+			}
+		}
+	}
+	if n == 0 {
+		ir.Fail("no write of Prices.ValidUntil found in the server")
 	}
 }
